@@ -7,9 +7,10 @@ package main
 // different rotation), and compares the verdicts.  Race reports are read from the detector's log.
 
 import (
-	"crypto/sha1"
-	"reflect"
+	"archive/zip"
+	"bytes"
 	"context"
+	"crypto/sha1"
 	"encoding/json"
 	"fmt"
 	"io"
@@ -17,6 +18,7 @@ import (
 	"os"
 	"os/exec"
 	"path/filepath"
+	"reflect"
 	"regexp"
 	"sort"
 	"strings"
@@ -32,10 +34,10 @@ import (
 )
 
 type C15Obs struct {
-	Skip     string   `json:"skipped,omitempty"`
-	Ops      int      `json:"operations"`
-	Differs  []string `json:"verdict_differs,omitempty"`
-	Panics   []string `json:"panics,omitempty"`
+	Skip    string   `json:"skipped,omitempty"`
+	Ops     int      `json:"operations"`
+	Differs []string `json:"verdict_differs,omitempty"`
+	Panics  []string `json:"panics,omitempty"`
 }
 
 type c15World struct {
@@ -67,6 +69,31 @@ func c15FreshType() reflect.Type {
 // a caller-supplied regex engine: case-insensitive
 func c15CI(expr string) (openapi3.RegexMatcher, error) { return regexp.Compile("(?i)" + expr) }
 
+// archives of one file each, filled with one character (so that what the decoder returns can be
+// recognised whatever padding it adds)
+var c15Zips = func() (out []struct {
+	archive  []byte
+	alphabet string
+	size     int
+}) {
+	for _, f := range []struct {
+		ch   string
+		size int
+	}{{"#", 700}, {"k", 2}, {"z", 300}, {"k", 2}} {
+		var b bytes.Buffer
+		zw := zip.NewWriter(&b)
+		w, _ := zw.Create("f.txt")
+		w.Write([]byte(strings.Repeat(f.ch, f.size)))
+		zw.Close()
+		out = append(out, struct {
+			archive  []byte
+			alphabet string
+			size     int
+		}{b.Bytes(), f.ch, f.size})
+	}
+	return
+}()
+
 func c15Load(c *C10Case) *c15World {
 	data, _ := json.Marshal(c.Doc)
 	doc, err := openapi3.NewLoader().LoadFromData(data)
@@ -86,10 +113,10 @@ func c15Load(c *C10Case) *c15World {
 }
 
 type c15Gen struct {
-	A int               `json:"a"`
-	B []string          `json:"b"`
+	A int                `json:"a"`
+	B []string           `json:"b"`
 	C map[string]*c15Gen `json:"c"`
-	D *c15Base2         `json:"d"`
+	D *c15Base2          `json:"d"`
 }
 type c15Base2 struct {
 	X float64 `json:"x"`
@@ -187,6 +214,18 @@ func c15Run(c *C10Case, w *c15World, rot int) []string {
 			}
 			out = append(out, fmt.Sprintf("engine %d %s %s %s", ei, eng, val, v))
 		}
+	}
+	// the opt-in zip body decoder: every archive decodes to its own content, whatever was decoded before
+	// or is being decoded next to it (the decoder pads with NUL bytes up to its buffer size: tolerated)
+	for zi, z := range c15Zips {
+		v, err := openapi3filter.ZipFileBodyDecoder(bytes.NewReader(z.archive), http.Header{"Content-Type": {"application/zip"}}, openapi3.NewStringSchema().NewRef(), nil)
+		str, _ := v.(string)
+		ok := err == nil && strings.TrimRight(str, "\x00") != "" && strings.Trim(str, z.alphabet+"\x00") == "" && len(strings.TrimRight(str, "\x00")) >= z.size
+		line := fmt.Sprintf("zip %d %v", zi, ok)
+		if !ok {
+			line += " WRONG-FOR-THIS-ENGINE"
+		}
+		out = append(out, line)
 	}
 	// schema generation for a type that no generator has seen before this document
 	if fr, err := openapi3gen.NewSchemaRefForValue(reflect.New(w.fresh).Interface(), openapi3.Schemas{}); err != nil || fr == nil {
